@@ -36,6 +36,11 @@ CONDITIONS = [
     {"name": "no-bootstrap-page", "backup": False, "bootstrap": False},
     {"name": "backup-present", "backup": True, "bootstrap": True},
     {"name": "backup-present+no-bootstrap-page", "backup": True, "bootstrap": False},
+    # database file created by a context with db_path=None (temporary file), then shared
+    {"name": "default-path-db", "backup": False, "bootstrap": False, "default_path": True},
+    # workers keep a get_all_pages() cursor open while they work
+    {"name": "open-cursor", "backup": False, "bootstrap": False, "cursor": True},
+    {"name": "default-path-db+open-cursor", "backup": False, "bootstrap": False, "default_path": True, "cursor": True},
 ]
 
 
@@ -196,7 +201,10 @@ def install():
 
 def make_template(d, cond):
     db = Path(d) / "t.db"
-    w = Wtp(db_path=db, quiet=True, quiet_output=True)
+    if cond.get("default_path"):
+        w = Wtp(quiet=True, quiet_output=True)       # creates its own temporary database file
+    else:
+        w = Wtp(db_path=db, quiet=True, quiet_output=True)
     w.add_page("Module:ustring:ustring", 828, USTRING, model="Scribunto")
     w.add_page("Module:m", 828, MOD, model="Scribunto")
     w.add_page("Template:t", 10, "T{{{1}}}")
@@ -206,7 +214,15 @@ def make_template(d, cond):
     w.db_conn.commit()
     if cond["backup"]:
         w.backup_db()
-    w.close_db_conn()
+    if cond.get("default_path"):
+        # keep the file (close_db_conn() deletes databases living in the temporary directory)
+        w.db_conn.commit()
+        w.db_conn.close()
+        shutil.copy(str(w.db_path), str(db))
+        for suffix in ("", "-wal", "-shm"):
+            Path(str(w.db_path) + suffix).unlink(True)
+    else:
+        w.close_db_conn()
 
 
 def table(d):
@@ -218,21 +234,27 @@ def table(d):
     return rows
 
 
-def body(db):
+def body(db, cursor=False):
     def b():
         w = Wtp(db_path=db, quiet=True, quiet_output=True)
+        gen = None
         try:
+            if cursor:
+                gen = w.get_all_pages([0])
+                next(gen)                 # a read cursor stays open while the worker goes on
             w.start_page("P")
             r1 = w.expand(w.get_page_body("P", 0) or "MISSING-PAGE")
             r2 = w.expand("{{t|z}}")
             ex = w.page_exists("Template:t", 10)
+            if gen is not None:
+                list(gen)
         finally:
             w.close_db_conn()
         return [r1, r2, ex]
     return b
 
 
-def run_one(tmpl, prefix, n):
+def run_one(tmpl, prefix, n, cursor=False):
     global SCHED
     d = scratch_dir("c20x")
     try:
@@ -241,7 +263,7 @@ def run_one(tmpl, prefix, n):
         s = Sched(n, prefix)
         SCHED = s
         try:
-            s.run([body(Path(d) / "t.db") for _ in range(n)])
+            s.run([body(Path(d) / "t.db", cursor) for _ in range(n)])
         finally:
             SCHED = None
         Wtp.get_page.cache_clear()
@@ -273,7 +295,7 @@ def explore(tmpl, n, bound, acc, cond, expected, before, report):
     while stack:
         prefix = stack.pop()
         report(nexec)
-        s = run_one(tmpl, prefix, n)
+        s = run_one(tmpl, prefix, n, bool(cond.get("cursor")))
         nexec += 1
         acc.case()
         case = {"condition": cond["name"], "workers": n, "schedule": list(s.choices),
@@ -321,7 +343,7 @@ def work(payload, skip, report):
     try:
         make_template(tmpl, cond)
         # what a single worker obtains, and the table it leaves
-        s1 = run_one(tmpl, [], 1)
+        s1 = run_one(tmpl, [], 1, bool(cond.get("cursor")))
         expected = s1.results[0]
         if s1.errors[0] is not None or expected is None:
             acc.violation("single_worker_baseline", {"condition": cond["name"]}, s1.errors[0], "a result")
@@ -344,9 +366,9 @@ def replay(case):
     out = []
     try:
         make_template(tmpl, cond)
-        s1 = run_one(tmpl, [], 1)
+        s1 = run_one(tmpl, [], 1, bool(cond.get("cursor")))
         expected = s1.results[0]
-        s = run_one(tmpl, case["schedule"], case["workers"])
+        s = run_one(tmpl, case["schedule"], case["workers"], bool(cond.get("cursor")))
         if s.deadlock:
             out.append({"oracle": "no_deadlock", "observed": "deadlock", "expected": "progress"})
         for i in range(case["workers"]):
@@ -418,8 +440,9 @@ def main(run):
         "transitions": trans,
         "traces_validated_against_impl": run.acc.n,
         "distinct_nontrivial": len(run.acc.sets.get("outcomes", ())),
-        "rule": "every schedule of N=2 worker threads with <= 2 preemptions%s, for 4 initial conditions (backup file present/absent x "
-                "sandbox bootstrap page present/absent); scheduling points at every sqlite3 connect/execute/executescript/commit/"
+        "rule": "every schedule of N=2 worker threads with <= 2 preemptions%s, for 7 initial conditions (backup file present/absent x "
+                "sandbox bootstrap page present/absent; database created through the default temporary path; workers holding a "
+                "get_all_pages() cursor open); scheduling points at every sqlite3 connect/execute/executescript/commit/"
                 "close/backup of the worker's own connection and at Path.exists/unlink/rename on the database and backup paths; "
                 "a state is a distinct tuple (next operation and status of every worker) seen at a scheduling point, a transition a "
                 "distinct (state, chosen worker); every schedule is an execution of the real code on a fresh copy of the database "
